@@ -148,7 +148,7 @@ def subst(e, sub):
         return sub.get(e.args[0], e)
     if e.op in ("c", "k"):
         return e
-    if e.op in ("max", "min", "pw"):
+    if e.op in ("max", "min", "pw", "atan2"):
         return X.E(e.op, *[subst(x, sub) for x in e.args])
     if e.op == "pow":
         return X.powi(subst(e.args[0], sub), e.args[1])
@@ -460,6 +460,23 @@ def P20():
     )
 
 
+def P21():
+    """Range / bearing to a landmark whose position is a calibration: the classic two-argument atan2 sensor."""
+    x, y, th, v, w, lx, ly, dt = V("x"), V("y"), V("th"), V("v"), V("w"), V("lx"), V("ly"), V("dt")
+    return Program(
+        id="P21-bearing",
+        state=["x", "y", "th"],
+        control=["v", "w"],
+        calibration=["lx", "ly"],
+        update={"x": x + v * X.cos(th) * dt, "y": y + v * X.sin(th) * dt, "th": th + w * dt},
+        process_noise={"v": 0.25, "w": 0.125},
+        sensors={"landmark": {"bearing": X.atan2(y - ly, x - lx) - th, "range": X.sqrt((x - lx) * (x - lx) + (y - ly) * (y - ly))}, "odo": {"s": X.atan2(X.sin(th), X.cos(th))}},
+        sensor_noise={"landmark": {"bearing": 0.0625, "range": 0.25}, "odo": {"s": 0.5}},
+        calibration_values={"lx": 2.5, "ly": -1.25},
+        note="atan2 with both arguments depending on the state (argument order matters), range = sqrt of a sum of squares",
+    )
+
+
 def quick_programs():
     return [P1(), P3(), P8()]
 
@@ -470,7 +487,7 @@ def all_fixed():
 
 def catalogue():
     """Every fixed program, including the model-level-only ones (replay looks programs up by id here)."""
-    return all_fixed() + [P11(), P18()]
+    return all_fixed() + [P11(), P18(), P21()]
 
 
 def with_noise(p, process=None, sensor=None, pid=None):
